@@ -4,6 +4,7 @@ package main
 
 import (
 	"encoding/json"
+	"sync"
 	"flag"
 	"fmt"
 	"os"
@@ -209,9 +210,14 @@ func cmdCheck(args []string) int {
 		}
 		return tagged(o.Tags, id)
 	}
+	tPhase := time.Now()
+	fmt.Fprintf(os.Stderr, "[phase] load+translate %.1fs\n", tPhase.Sub(t0).Seconds())
 	res := runObligations(fts, dir, timeout, filter, 4)
+	fmt.Fprintf(os.Stderr, "[phase] obligations %.1fs\n", time.Since(tPhase).Seconds())
+	tPhase = time.Now()
 	// vacuity covers
-	vac := runCovers(fts, dir)
+	vac := runCovers(fts, dir, *tier == "thorough")
+	fmt.Fprintf(os.Stderr, "[phase] covers %.1fs\n", time.Since(tPhase).Seconds())
 	ledger := loadLedger(id)
 	known := loadKnown()
 	knownOpen := map[string]KnownFinding{}
@@ -333,8 +339,21 @@ func cmdCheck(args []string) int {
 
 // runCovers: for every function, the entry assumptions (requires + axioms) must be satisfiable:
 // a query asking to prove "false" at entry must not be answered unsat.
-func runCovers(fts []*FT, dir string) []string {
+func runCovers(fts []*FT, dir string, thorough bool) []string {
+	cs, ct, par := coverSolvers, 1, 8
+	if thorough {
+		cs, ct, par = solvers, 3, 3
+	}
 	var bad []string
+	coverAxs := map[*FT][]axTerm{}
+	for _, ft := range fts {
+		coverAxs[ft] = ft.axiomTerms(ft.axUpTo)
+	}
+	type ej struct {
+		ft *FT
+		n  int
+	}
+	var ejobs []ej
 	for _, ft := range fts {
 		if ft.fn == nil || ft.c == nil || len(ft.c.Requires) == 0 {
 			continue
@@ -344,14 +363,75 @@ func runCovers(fts []*FT, dir string) []string {
 		if len(ft.obls) > 0 {
 			n = ft.obls[0].NFacts
 		}
-		o := &Obl{Name: ft.name + "#cover", Kind: "cover", NFacts: n, Guard: "true", Goal: "false"}
-		q := ft.buildQueryOpt(o, ft.axiomTerms(ft.axUpTo), false)
-		r := Solve(q, dir, o.Name, 2, false)
-		if os.Getenv("PVC_KEEPCOVER") != "" {
-			os.WriteFile("/tmp/cover_"+mangle(shortKey(ft.name))+".smt2", []byte(q), 0o644)
+		ejobs = append(ejobs, ej{ft, n})
+	}
+	eres := make([]string, len(ejobs))
+	{
+		var wg sync.WaitGroup
+		sem := make(chan bool, par)
+		for i, j := range ejobs {
+			wg.Add(1)
+			sem <- true
+			go func(i int, j ej) {
+				defer wg.Done()
+				defer func() { <-sem }()
+				o := &Obl{Name: j.ft.name + "#cover", Kind: "cover", NFacts: j.n, Guard: "true", Goal: "false"}
+				q := j.ft.buildQueryOpt(o, coverAxs[j.ft], false)
+				r := solveWith(cs, q, dir, o.Name, ct, false)
+				if os.Getenv("PVC_KEEPCOVER") != "" {
+					os.WriteFile("/tmp/cover_"+mangle(shortKey(j.ft.name))+".smt2", []byte(q), 0o644)
+				}
+				if r.Status == "unsat" {
+					eres[i] = "precondition of " + shortKey(j.ft.name) + " is contradictory (proved false at entry)"
+				}
+			}(i, j)
 		}
-		if r.Status == "unsat" {
-			bad = append(bad, "precondition of "+shortKey(ft.name)+" is contradictory (proved false at entry)")
+		wg.Wait()
+	}
+	for _, r := range eres {
+		if r != "" {
+			bad = append(bad, r)
+		}
+	}
+	// path covers: the normal return and every loop body must be reachable under the assumed contracts; otherwise the
+	// obligations on those paths were discharged vacuously (e.g. an assumed callee postcondition contradicts the state)
+	type cj struct {
+		ft *FT
+		c  cover
+	}
+	var jobs []cj
+	for _, ft := range fts {
+		if ft.fn == nil {
+			continue
+		}
+		for _, c := range ft.covers {
+			jobs = append(jobs, cj{ft, c})
+		}
+	}
+	res := make([]string, len(jobs))
+	var wg sync.WaitGroup
+	sem := make(chan bool, par)
+	for i, j := range jobs {
+		wg.Add(1)
+		sem <- true
+		go func(i int, j cj) {
+			defer wg.Done()
+			defer func() { <-sem }()
+			o := &Obl{Name: j.c.Name, Kind: "cover", NFacts: j.c.NFacts, Guard: j.c.Guard, Goal: "false"}
+			q := j.ft.buildQueryOpt(o, coverAxs[j.ft], true)
+			r := solveWith(cs, q, dir, o.Name, ct, false)
+			if k := os.Getenv("PVC_KEEPCOVER"); k != "" && (r.Status == "unsat" || k == "all") {
+				os.WriteFile("/tmp/cover_"+mangle(shortKey(j.c.Name))+".smt2", []byte(q), 0o644)
+			}
+			if r.Status == "unsat" {
+				res[i] = shortKey(j.c.Name) + " is unreachable under the assumed contracts (obligations there hold vacuously)"
+			}
+		}(i, j)
+	}
+	wg.Wait()
+	for _, r := range res {
+		if r != "" {
+			bad = append(bad, r)
 		}
 	}
 	return bad
